@@ -21,7 +21,7 @@ def stream_of(c):
     return 'table' if c['kind'] == 'table' else 'pipe'
 
 RULE = ('synthetic cycle tables whose four feature columns take values on, one ulp below and one ulp above the '
-        'thresholds (plus 0, 1, NaN, inf), threshold vectors from a grid in [0,1]^4 and out-of-range/NaN values, '
+        'thresholds (plus 0, 1, NaN, inf), default and non-default row labels, threshold vectors from a grid in [0,1]^4 and out-of-range/NaN values, '
         'min_n_cycles in -1..6; plus compute_features(burst_method="cycles") on generated signals with the '
         'thresholds the caller passed (routing + defaults). non-trivial = at least 3 rows and at least one label of '
         'each value, or a rejected setting')
@@ -68,7 +68,7 @@ def cases(rng, tier):
         nkeys = rng.choice([4, 4, 4, 3, 2, 0])
         given = sorted(rng.sample(range(4), nkeys))
         out.append({'kind': 'table', 'thr': _hexrow(thr), 'given': given, 'n': n, 'n_given': rng.random() < 0.8,
-                    'rows': rows})
+                    'rows': rows, 'index': rng.choice(['default', 'default', 'offset', 'reversed', 'sparse'])})
     npipe = 90 if tier == 'quick' else 900
     for _ in range(npipe):
         out.append(pipeline.gen_case(rng, tier, methods=('cycles',), fek_prob=0.3))
@@ -97,12 +97,23 @@ def run_impl(c):
         rows = [[_unhex(h) for h in r] for r in c['rows']]
         df = pd.DataFrame({COLS[k]: np.array([r[k] for r in rows], dtype=float) for k in range(4)})
         df['period'] = np.arange(len(rows), dtype=float)
+        # a cycle table need not carry the default 0..n-1 row labels (e.g. a window cut out by limit_df)
+        ix = c.get('index', 'default')
+        if ix == 'offset':
+            df.index = np.arange(len(rows)) + 7
+        elif ix == 'reversed':
+            df.index = np.arange(len(rows))[::-1]
+        elif ix == 'sparse':
+            df.index = np.arange(len(rows)) * 3 + 1
         before = df.copy()
         try:
             res = detect_bursts_cycles(df, **_kwargs(c))
         except Exception as e:
             return {'err': exc_kind(e)}
-        lab = [bool(x) for x in np.asarray(res['is_burst'])]
+        col = np.asarray(res['is_burst'])
+        if len(col) != len(rows) or any(v is None or (isinstance(v, float) and v != v) for v in col.tolist()):
+            return {'labels': [False] * len(rows), 'features_unchanged': False, 'bad_label_column': True}
+        lab = [bool(x) for x in col]
         same = all(np.array_equal(np.asarray(res[col]), np.asarray(before[col]), equal_nan=True) for col in before.columns)
         return {'labels': lab, 'features_unchanged': bool(same)}
     return pipeline.run_pipe(c)
@@ -144,6 +155,8 @@ def oracle(c, o):
     want = _spec_labels(eff, n, rows)
     if o['labels'] != want:
         return 'labels differ from threshold-and-run rule: got %s want %s' % (o['labels'], want)
+    if o.get('bad_label_column'):
+        return 'is_burst column is not one boolean per row'
     if not o['features_unchanged']:
         return 'feature columns changed by labelling'
     # monotonicity probe: raising each threshold by one step / n by one never adds a label
